@@ -234,3 +234,19 @@ def isnone(x):
     if isinstance(x, UnionView):
         return x.is_none
     return z3.BoolVal(False)
+
+
+def ubox(x):
+    """view of a value of statically unknown type -> term of the universal sort"""
+    from .values import U
+    if x is None:
+        return U.vnone
+    if isinstance(x, bool):
+        return U.vbool(z3.BoolVal(x))
+    if z3.is_bool(x):
+        return U.vbool(x)
+    if z3.is_int(x):
+        return U.vint(x)
+    if z3.is_string(x):
+        return U.vstr(x)
+    return x
